@@ -194,6 +194,10 @@ func (g *G) GenProgram(maxChain, maxEvents, maxOps int) *Program {
 			st.Kind = "WithCaller"
 			hookID++
 			h := &HookSpec{ID: hookID, Kind: 6, Out: []KVI{{g.S.CallerFieldName, Str(g.S.CallerText)}}}
+			if r.Chance(1, 5) {
+				st.Kind = "WithCallerFar" // CallerWithSkipFrameCount beyond the stack: the hook adds nothing
+				h.Out = nil
+			}
 			st.Hooks = []*HookSpec{h}
 			hooks = append(hooks[:len(hooks):len(hooks)], h)
 		case choice == 6:
@@ -499,6 +503,8 @@ func (x *Exec) BuildLogger(base zerolog.Logger, chain []Step, out *Rec, hookLog 
 			l = l.With().Timestamp().Logger()
 		case "WithCaller":
 			l = l.With().Caller().Logger()
+		case "WithCallerFar":
+			l = l.With().CallerWithSkipFrameCount(100000).Logger()
 		case "WithStack":
 			l = l.With().Stack().Logger()
 		case "WithCtx":
